@@ -36,7 +36,7 @@ WIDTHS = [2, 1, 1.5, 2.5, 3, 4]
 
 def bounds(tier):
     return {"grids": GR_T if tier == "thorough" else GR_Q, "kernels": KERNELS, "widths": WIDTHS,
-            "per-axis widths": [[2.5, 1], [1.5, 3, 2]], "coordinate sets": ["lattice (step 1/4 from -2.5 to N+2.5, 1-D; product of coarse lattice in 2-D/3-D)", "far", "dup", "random", "random-f32"],
+            "per-axis widths": "2-D: [2.5,1], [1,2.5]; 3-D: orderings of (1.5, 3, 2) (3 quick / all 6 thorough)", "coordinate sets": ["lattice (step 1/4 from -2.5 to N+2.5, 1-D; product of coarse lattice in 2-D/3-D)", "far", "dup", "random", "random-f32"],
             "batch": [[], [2], [2, 1]]}
 
 
@@ -53,9 +53,11 @@ def gen_cases(tier, seed):
             for kn, prm in KERNELS:
                 ws = list(WIDTHS)
                 if nd == 2:
-                    ws.append([2.5, 1])
+                    ws += [[2.5, 1], [1, 2.5]]
                 if nd == 3:
-                    ws.append([1.5, 3, 2])
+                    # every ordering of three different widths: a kernel that mixes up two axes' widths is only visible
+                    # when the wrongly used width is the smaller one
+                    ws += [[1.5, 3, 2], [3, 1.5, 2], [2, 3, 1.5]] + ([[1.5, 2, 3], [3, 2, 1.5], [2, 1.5, 3]] if T else [])
                 for w in ws:
                     if not T and nd == 3 and cs in ("far", "dup") and w not in (2, 2.5):
                         continue
